@@ -1,0 +1,71 @@
+//go:build verif
+
+package command
+
+import (
+	"math/big"
+	"sort"
+)
+
+// VerifLockerState projects the lock manager's tables: read-lock counts,
+// write-locked accounts and the queue of waiting intents (in order).
+type VerifLockerState struct {
+	Read   map[string]int64
+	Write  []string
+	Queued []Accounts
+	// QueuedIntents are the identities of the waiting intents (the values
+	// passed as "intent" to the lock hooks), in queue order.
+	QueuedIntents []any
+}
+
+func VerifLockerSnapshot(l *DefaultLocker) VerifLockerState {
+	l.mu.Lock()
+	defer l.mu.Unlock()
+	ret := VerifLockerState{Read: map[string]int64{}, Write: []string{}, Queued: []Accounts{}}
+	for k, v := range l.readLocks {
+		ret.Read[k] = v.Load()
+	}
+	for k := range l.writeLocks {
+		ret.Write = append(ret.Write, k)
+	}
+	sort.Strings(ret.Write)
+	for _, intent := range l.intents.Slice() {
+		ret.Queued = append(ret.Queued, intent.accounts)
+		ret.QueuedIntents = append(ret.QueuedIntents, intent)
+	}
+	return ret
+}
+
+// VerifIntentAccounts returns the accounts of an intent passed to a lock hook.
+func VerifIntentAccounts(intent any) (Accounts, bool) {
+	i, ok := intent.(*lockIntent)
+	if !ok {
+		return Accounts{}, false
+	}
+	return i.accounts, true
+}
+
+// VerifHeads returns the in-memory heads of the commander: id of the last
+// chained log (-1 when none) and the last allocated transaction id.
+func VerifHeads(c *Commander) (lastLogID *big.Int, lastTXID *big.Int) {
+	c.mu.Lock()
+	defer c.mu.Unlock()
+	lastLogID = big.NewInt(-1)
+	if c.lastLog != nil {
+		lastLogID = new(big.Int).Set(c.lastLog.ID)
+	}
+	return lastLogID, new(big.Int).Set(c.lastTXID)
+}
+
+// VerifReferencerKeys lists the keys currently reserved in a Referencer.
+func VerifReferencerKeys(r *Referencer) []string {
+	ret := []string{}
+	for _, m := range r.references {
+		m.Range(func(key, _ any) bool {
+			ret = append(ret, key.(string))
+			return true
+		})
+	}
+	sort.Strings(ret)
+	return ret
+}
